@@ -438,7 +438,8 @@ C01 = Prop("C01", "opt", ["NitroVerif.Props.C01"], gen_c01,
                 "undeclared letters, bundles mixing those incl. repeats and '-', each with and without =v, value tokens, "
                 "--, -, ---x, -=x), length 3 over a 20-token alphabet on 3 templates; seeded random declarations with "
                 "random vectors up to 12 tokens. Non-trivial: at least one option-like token and a non-empty declaration. "
-                "Distinct = distinct case line.",
+                "Distinct = distinct case line. " \
+                "A sample of the family is repeated on a parser that was move-constructed (PM1) / move-assigned over a configured parser (PM2) after its declaration; each plain parse is repeated through parse(vector<user_input>) on a parser of its own; 600 (thorough: 2400) two-parse histories of family members on one parser object (H, and HM with the parser moved in between), plus 'defaults, then the option in each spelling, then defaults again' on every template.",
            search=SRCH(gen_c01), theorem_hint="NitroVerif.Props.C01.*",
            level_text="Lean 4: the code-shaped parse loop is proved equal to 'explain, then interpret' (parse_factor), hence every "
                       "accepted command line has a lossless explanation (render(explain) = argv) whose interpretation is the "
@@ -449,7 +450,8 @@ C02 = Prop("C02", "opt", ["NitroVerif.Props.C02"], gen_c02,
            rule="generator with inverse: draw an assignment (values from a list incl. empty, '=', blanks, leading dashes, line "
                 "breaks, 0xff bytes, 200 bytes, int boundaries), draw a spelling per occurrence (long/short, separate/=, "
                 "bundled toggle letters, permutation, inline positionals or after --), render; plus every value through "
-                "every form. Non-trivial: as C01.",
+                "every form. Non-trivial: as C01. " \
+                "A sample of the family is repeated on a parser that was move-constructed (PM1) / move-assigned over a configured parser (PM2) after its declaration; each plain parse is repeated through parse(vector<user_input>) on a parser of its own; 600 (thorough: 2400) two-parse histories of family members on one parser object (H, and HM with the parser moved in between), plus 'defaults, then the option in each spelling, then defaults again' on every template. Typed access also for every multi-option value.",
            search=SRCH(gen_c02), theorem_hint="NitroVerif.Props.C02.*",
            level_text="Lean 4: every explainable command line parses to the interpretation of its items, the interpretation does "
                       "not depend on item order beyond multi-option values and positionals, values are carried verbatim; "
@@ -459,7 +461,8 @@ C02 = Prop("C02", "opt", ["NitroVerif.Props.C02"], gen_c02,
 C03 = Prop("C03", "opt", ["NitroVerif.Props.C03"], gen_c03,
            rule="exhaustive matrix {option, multi-option, toggle} x {given on the command line or not} x {env unbound, unset, "
                 "empty, 15 contents incl. option-like, ';' forms, toggle words} x {default or not} x {optional or required} with "
-                "real setenv/unsetenv; seeded random declarations/environments. Non-trivial: as C01 or a bound variable.",
+                "real setenv/unsetenv; seeded random declarations/environments. Non-trivial: as C01 or a bound variable. " \
+                "A sample of the family is repeated on a parser that was move-constructed (PM1) / move-assigned over a configured parser (PM2) after its declaration; each plain parse is repeated through parse(vector<user_input>) on a parser of its own; 600 (thorough: 2400) two-parse histories of family members on one parser object (H, and HM with the parser moved in between), plus 'defaults, then the option in each spelling, then defaults again' on every template. Environment contents include the declared defaults themselves ('dv', 'd1;d2').",
            search=SRCH(gen_c03), theorem_hint="NitroVerif.Props.C03.*",
            level_text="Lean 4: the value of every option after a successful parse is the first available of command line, "
                       "non-empty bound environment variable (verbatim; split at ';' for multi-options; closed vocabulary for "
@@ -470,7 +473,8 @@ C04 = Prop("C04", "opt", ["NitroVerif.Props.C04"], gen_c04,
            rule="exhaustive token syntax: every string of length <=5 over {-,=,a,n,o,newline} through the user_input constructor; "
                 "C01's vectors of length <=2; random vectors; arbitrary byte strings; inconsistent declarations (shared letter, "
                 "option named no-<toggle>); tokens of 1e3..2e5 characters (1e6 in the thorough tier); ASan/UBSan and a 5 s "
-                "watchdog per case. Non-trivial: as C01, every token case.",
+                "watchdog per case. Non-trivial: as C01, every token case. " \
+                "Two-parse histories as in the other option families (no moved-parser variants here).",
            search=SRCH(gen_c04), theorem_hint="NitroVerif.Props.C04.*",
            level_text="Lean 4: parse returns a result or the user-input error for every argument vector and environment when "
                       "the declaration is consistent, the developer error exactly when it is not; the user error is raised "
@@ -483,7 +487,8 @@ C11 = Prop("C11", "opt", ["NitroVerif.Props.C11"], gen_c11,
            rule="the 30 documented words, case variants, one-edit near misses and random strings through parse_env_value and "
                 "through a full parse; all vectors of length <=3 over 18 occurrence patterns (long, short, repeated letters, "
                 "bundles with other toggles, --no- forms, other arguments in between) x environments. Non-trivial: as C01, every "
-                "word case.",
+                "word case. " \
+                "A sample of the family is repeated on a parser that was move-constructed (PM1) / move-assigned over a configured parser (PM2) after its declaration; each plain parse is repeated through parse(vector<user_input>) on a parser of its own; 600 (thorough: 2400) two-parse histories of family members on one parser object (H, and HM with the parser moved in between), plus 'defaults, then the option in each spelling, then defaults again' on every template.",
            search=SRCH(gen_c11), theorem_hint="NitroVerif.Props.C11.*",
            level_text="Lean 4: count = number of positive occurrences (long spellings + letter multiplicities), --no- only for "
                       "reversible toggles and yields 0, both polarities rejected in either order, environment word by the "
@@ -495,7 +500,8 @@ C12 = Prop("C12", "opt", ["NitroVerif.Props.C12"], gen_c12,
            rule="limits {0,1,2,3,unlimited} x greedy on/off x all vectors of length <=3 over plain valid option uses, values and "
                 "--; every prefix in {[], v, --opt x, --tog, --opt} followed by -- and all pairs over {--, -, ---x, -=x, --=, "
                 "--opt, -t, v, ''}; arguments::get(i) for n in 0..5 and all i in [-n-2, n+1]. Non-trivial: as C01, every index "
-                "case.",
+                "case. " \
+                "A sample of the family is repeated on a parser that was move-constructed (PM1) / move-assigned over a configured parser (PM2) after its declaration; each plain parse is repeated through parse(vector<user_input>) on a parser of its own; 600 (thorough: 2400) two-parse histories of family members on one parser object (H, and HM with the parser moved in between), plus 'defaults, then the option in each spelling, then defaults again' on every template. arguments::get(i) and operator[](i) are evaluated independently and must agree, also in raising.",
            search=SRCH(gen_c12), theorem_hint="NitroVerif.Props.C12.*",
            level_text="Lean 4: positionals are the value tokens before the cut plus every token after the first -- (or after the "
                       "first positional when greedy), verbatim and in order; success implies count <= limit; index -k is the "
@@ -505,7 +511,8 @@ C12 = Prop("C12", "opt", ["NitroVerif.Props.C12"], gen_c12,
 C14 = Prop("C14", "opt", ["NitroVerif.Props.C14"], gen_c14,
            rule="one parser object, histories of 2-6 parses: all ordered pairs over 17 vectors (successes and every kind of "
                 "failure), all triples over 9 with an environment change in between, seeded random histories over three "
-                "declarations; each step compared with the specification of a fresh parse. Non-trivial: at least 2 parses.",
+                "declarations; each step compared with the specification of a fresh parse. Non-trivial: at least 2 parses. " \
+                "A second declaration with defaults of every kind (non-zero toggle defaults, option and multi-option defaults, greedy) with all ordered pairs over 12 vectors; 800 (thorough: 4000) histories repeated with the parser object moved between the parses (HM: alternately move-constructed and move-assigned).",
            search=SRCH(gen_c14), theorem_hint="NitroVerif.Props.C14.*",
            level_text="Lean 4: the outcome of the n-th parse on one parser object equals the outcome on a fresh parser, for every "
                       "history of earlier parses (prepare() erases all per-option state).",
